@@ -1169,6 +1169,18 @@ func c04Part2(c *Ctx, pool *Pool, settle func(fam, key, verdict, why string, rep
 			}
 		}})
 	lap("RenderDeep TLC")
+	{ // TLC's workers print the vectors in any order: everything seeded below goes by the sorted order
+		idx := make([]int, len(deepRaw))
+		for i := range idx {
+			idx[i] = i
+		}
+		sort.Slice(idx, func(a, b int) bool { return deepRaw[idx[a]] < deepRaw[idx[b]] })
+		vs, rs := make([]c04DeepVec, len(idx)), make([]string, len(idx))
+		for k, i := range idx {
+			vs[k], rs[k] = deepVecs[i], deepRaw[i]
+		}
+		deepVecs, deepRaw = vs, rs
+	}
 	modelStream.Wait()
 	lap("model-scale chains")
 
@@ -1411,7 +1423,7 @@ func c04Part2(c *Ctx, pool *Pool, settle func(fam, key, verdict, why string, rep
 				lmu.Lock()
 				leafOf[nsub] = leafCtx{v: v, in: in, leaf: leaf}
 				lmu.Unlock()
-				if (v.Via == "root-doc" || v.Via == "root-sel") && nsub%151 == 0 {
+				if (v.Via == "root-doc" || v.Via == "root-sel") && c17Seed(c.Seed, raw, "bin"+string(j.Files[0].Data))%151 == 0 {
 					addBin(j.Prog, j.Files[0].Data, j.Sels, v.Exp, in, string(raw), "bin-leaf")
 				}
 				leafStream.Submit(j)
